@@ -289,6 +289,17 @@ br_ssl_engine_fail(br_ssl_engine_context *rc, int err)
 	if (rc->iomode != BR_IO_FAILED) {
 		rc->iomode = BR_IO_FAILED;
 		rc->err = err;
+		if (err != BR_ERR_OK) {
+			/*
+			 * A connection that ends on an error invalidates
+			 * its session (RFC 5246, 7.2.2). In particular, a
+			 * handshake that failed after the ServerHello has
+			 * left a session ID chosen by a peer that was not
+			 * authenticated, with no matching master secret;
+			 * it must not be offered for resumption.
+			 */
+			rc->session.session_id_len = 0;
+		}
 	}
 }
 
